@@ -35,9 +35,14 @@ use crate::Ctx;
 // Indexes
 
 fn schema_c16() -> Value {
+  // `ws` (whitespace tokenizer: keeps every non-space character in its tokens) and `uni` (unicode
+  // tokenizer) make every character of the UTF-8 boundary alphabet reachable as an indexed token
   json!({"doc_id_field": "_id",
+    "analyzers": [{"name": "wsa", "tokenizer": "whitespace", "filters": []}, {"name": "unia", "tokenizer": "unicode", "filters": []}],
     "text_fields": [{"name": "body", "analyzer": "default", "stored": true, "indexed": true},
-                    {"name": "title", "analyzer": "default", "stored": true, "indexed": true}],
+                    {"name": "title", "analyzer": "default", "stored": true, "indexed": true},
+                    {"name": "ws", "analyzer": "wsa", "stored": true, "indexed": true},
+                    {"name": "uni", "analyzer": "unia", "stored": true, "indexed": true}],
     "keyword_fields": [{"name": "kw", "stored": true, "indexed": true, "fast": true},
                        {"name": "g", "stored": true, "indexed": true, "fast": true}],
     "numeric_fields": [{"name": "n", "i64": true, "fast": true, "stored": true},
@@ -57,13 +62,80 @@ fn docs() -> Vec<Value> {
     json!({"_id": "B", "body": "a a b", "title": "rust", "kw": "y", "g": "g1", "n": 2, "f": 1.5, "ts": 1700086400000i64}),
     json!({"_id": "C", "body": "日本日本日本 rust 日本 é a", "title": "b", "kw": ["x", "y"], "g": "g2", "n": [3, 4], "f": [2.5, 0.25], "c": {"a": "q", "v": 7}}),
     json!({"_id": "D", "body": "c", "kw": "x"}),
+    // every UTF-8 boundary character as (part of) indexed tokens, so that term expansions over
+    // such prefixes have neighbours to scan
+    {
+      let text: String = boundary_chars().iter().map(|c| format!("{c} {c}a a{c} {c}{c} ab{c}z")).collect::<Vec<_>>().join(" ");
+      let kws: Vec<String> = boundary_chars().iter().flat_map(|c| [format!("{c}"), format!("a{c}"), format!("{c}a")]).collect();
+      json!({"_id": "E", "body": text, "title": text, "ws": text, "uni": text, "kw": kws, "g": "g2"})
+    },
   ]
+}
+
+/// UTF-8 byte-boundary classes: for each encoded length 1..4 a character whose LAST byte is the
+/// minimum, a middle and the maximum value (0x80 / .. / 0xBF for continuation bytes; 0x01 / 'm' /
+/// 0x7F for one-byte characters), alphabetic representatives of the min / max classes (so that the
+/// default tokenizer keeps them), and the first and last code point of every length class.
+fn boundary_chars() -> Vec<char> {
+  vec![
+    '\u{1}', 'm', '\u{7f}', // 1 byte: min, mid, max = last of class
+    '\u{80}', '\u{bf}', '\u{e9}', '\u{ff}', '\u{3bf}', '\u{43f}', '\u{440}', '\u{7ff}', // 2 bytes: first(min) C2 80, C2 BF, mid, C3 BF, CE BF, D0 BF, D1 80 (min, letter), last DF BF
+    '\u{800}', '\u{83f}', '\u{4e00}', '\u{4e3f}', '\u{65e5}', '\u{ffff}', // 3 bytes: first(min), max, letter min E4 B8 80, letter max E4 B8 BF, mid, last EF BF BF
+    '\u{10000}', '\u{1003f}', '\u{1f60a}', '\u{1f3ff}', '\u{10ffff}', // 4 bytes: first(min), max (letter), mid, max, last F4 8F BF BF
+  ]
+}
+
+/// Plain strings around one boundary character: alone, after / before an ASCII letter, doubled.
+fn boundary_words(c: char) -> Vec<String> {
+  vec![format!("{c}"), format!("a{c}"), format!("{c}a"), format!("{c}{c}"), format!("ab{c}")]
+}
+
+/// Wildcard / regex patterns whose literal prefix ends in the boundary character.
+fn boundary_patterns(c: char) -> Vec<String> {
+  vec![format!("{c}*"), format!("a{c}*"), format!("{c}?z"), format!("a{c}?*z"), format!("{c}.+"), format!("a{c}(x|y)"), format!("a{c}.*z")]
+}
+
+/// Hand-written requests that put every boundary character into every term-expansion location:
+/// prefix / wildcard / regex on a default-, whitespace-, unicode-analyzed text field and a keyword
+/// field; fuzzy expansion with prefix_length 0, 1, 2; query_string forms; completion suggest with
+/// and without fuzzy.
+fn boundary_requests() -> Vec<Value> {
+  let mut v = Vec::new();
+  for c in boundary_chars() {
+    for field in ["body", "ws", "uni", "kw"] {
+      for val in [format!("{c}"), format!("a{c}")] {
+        v.push(json!({"query": {"type": "prefix", "field": field, "value": val, "max_expansions": 10}, "limit": 5, "return_stored": false}));
+      }
+      for val in [format!("{c}*"), format!("a{c}?z")] {
+        v.push(json!({"query": {"type": "wildcard", "field": field, "value": val, "max_expansions": 10}, "limit": 5, "return_stored": false}));
+      }
+      for val in [format!("{c}.+"), format!("a{c}(x|y)")] {
+        v.push(json!({"query": {"type": "regex", "field": field, "value": val, "max_expansions": 10}, "limit": 5, "return_stored": false}));
+      }
+      for pfx in [format!("{c}"), format!("a{c}")] {
+        v.push(json!({"query": {"type": "match_all"}, "limit": 1, "return_stored": false, "suggest": {"s": {"type": "completion", "field": field, "prefix": pfx, "size": 3}}}));
+        v.push(json!({"query": {"type": "match_all"}, "limit": 1, "return_stored": false, "suggest": {"s": {"type": "completion", "field": field, "prefix": pfx, "size": 3, "fuzzy": {"max_edits": 1, "prefix_length": 1, "max_expansions": 10, "min_length": 1}}}}));
+      }
+    }
+    for pl in 0..=2 {
+      let fz = json!({"max_edits": 1, "prefix_length": pl, "max_expansions": 10, "min_length": 1});
+      v.push(json!({"query": {"type": "query_string", "query": format!("{c}ab x{c}b xy{c} {c}"), "fields": ["body", "ws", "uni"]}, "fuzzy": fz, "limit": 5, "return_stored": false}));
+      v.push(json!({"query": {"type": "term", "field": "ws", "value": format!("{c}a")}, "fuzzy": fz, "limit": 5, "return_stored": false}));
+      v.push(json!({"query": {"type": "multi_match", "query": format!("{c}{c} a{c}"), "fields": ["title", "uni"]}, "fuzzy": fz, "limit": 5, "return_stored": false}));
+    }
+    for q in [format!("{c}"), format!("ws:{c}a"), format!("\"{c} {c}a\""), format!("-{c} a"), format!("uni:a{c} body:{c}{c}")] {
+      v.push(json!({"query": q, "limit": 5, "return_stored": false, "highlight_field": "body"}));
+      v.push(json!({"query": {"type": "query_string", "query": q, "fields": ["ws", "uni", "body"]}, "limit": 5, "return_stored": true, "highlight": {"fields": {"ws": {"fragment_size": 3, "number_of_fragments": 2}}}}));
+    }
+    v.push(json!({"query": {"type": "phrase", "field": "ws", "terms": [format!("{c}"), format!("{c}a")], "slop": 1}, "limit": 5, "return_stored": false}));
+  }
+  v
 }
 
 fn indexes() -> Vec<World> {
   vec![
-    World::new("c16: 1 segment, 4 docs", schema_c16(), docs()),
-    World::new("c16: 2 segments + tombstone", schema_c16(), docs()).with_layout(vec![2, 2]).with_deleted(&["B"]),
+    World::new("c16: 1 segment, 5 docs", schema_c16(), docs()),
+    World::new("c16: 2 segments + tombstone", schema_c16(), docs()).with_layout(vec![2, 3]).with_deleted(&["B"]),
     World::new("c16: empty index", schema_c16(), vec![]),
   ]
 }
@@ -161,7 +233,8 @@ fn hex_of(s: &[u8]) -> String {
 }
 
 /// String classes: 0 universal, 1 cursor-like, 2 regex/wildcard patterns, 3 scripts, 4 field names and
-/// bucket paths, 5 query strings, 6 percentages / intervals / dates / numbers-as-strings, 7 enum and type names.
+/// bucket paths, 5 query strings, 6 percentages / intervals / dates / numbers-as-strings, 7 enum and type names,
+/// 8 words around UTF-8 byte-boundary characters (used at every pattern and query-string location).
 fn add(v: &mut Vec<(u8, String)>, class: u8, xs: &[&str]) {
   for x in xs {
     v.push((class, x.to_string()));
@@ -208,6 +281,15 @@ fn nasty_strings(quick: bool) -> Vec<(u8, String)> {
         "reciprocal", "none", "skip", "insert_zeros", "asc", "desc",
         "term", "prefix", "wildcard", "regex", "match_all", "phrase", "query_string", "terms", "stats", "extended_stats", "value_count", "histogram", "avg_bucket", "sum_bucket", "rare_terms", "significant_terms",
         "cardinality", "derivative", "moving_avg", "completion"]);
+  // UTF-8 byte-boundary alphabet: class 8 = plain words, class 2 = patterns with such a literal prefix
+  for c in boundary_chars() {
+    for w in boundary_words(c) {
+      v.push((8, w));
+    }
+    for p in boundary_patterns(c) {
+      v.push((2, p));
+    }
+  }
   if !quick {
     v.push((0, "a".repeat(65536)));
     v.push((0, "é".repeat(32768)));
@@ -317,7 +399,7 @@ fn structured_variants(base: &Value, strings: &[(u8, String)], all_classes: bool
       Value::String(_) => {
         let class = location_class(path);
         for (c, s) in strings {
-          if all_classes || *c == 0 || *c == class {
+          if all_classes || *c == 0 || *c == class || (*c == 8 && (class == 2 || class == 5)) {
             put(json!(s));
           }
         }
@@ -1187,6 +1269,8 @@ pub fn run(ctx: &Ctx) -> i32 {
     core.push(e.to_string());
   }
   let n_extras = core.len() - n_bases;
+  let boundary: Vec<String> = boundary_requests().iter().map(|r| r.to_string()).collect();
+  let n_boundary = boundary.len();
   let mut structured: Vec<String> = Vec::new();
   for (_, b) in &base_list {
     structured_variants(b, &strings, !quick, &numbers, &mut structured);
@@ -1214,6 +1298,7 @@ pub fn run(ctx: &Ctx) -> i32 {
     out
   };
   let core = keep(core, &mut seen);
+  let boundary = keep(boundary, &mut seen);
   let structured = keep(structured, &mut seen);
   let edits = keep(edits, &mut seen);
 
@@ -1268,6 +1353,10 @@ pub fn run(ctx: &Ctx) -> i32 {
     // the hand-written extras contain most of the hanging requests: small jobs spread them
     add_part(0, 12, core.clone(), &mut texts);
     add_part(0, 120, cur, &mut texts);
+    // UTF-8 boundary requests: quick on the two indexes that have segments, thorough on all
+    if !quick || wi <= 1 {
+      add_part(0, 150, boundary.clone(), &mut texts);
+    }
     if !quick || wi == 1 {
       add_part(1, chunk, structured.clone(), &mut texts);
     }
@@ -1478,11 +1567,15 @@ pub fn run(ctx: &Ctx) -> i32 {
   let nontrivial = counts.get("ok").copied().unwrap_or(0) + counts.get("err").copied().unwrap_or(0) + counts.get("panic").copied().unwrap_or(0) + counts.get("hang").copied().unwrap_or(0) + counts.get("died").copied().unwrap_or(0);
   let cov = vcore::cov! {
     "distinct_nontrivial" => nontrivial,
-    "rule" => "requests = 10 base requests covering every top-level request feature; for every value location of each base: null, every nasty string (thorough: every string at every string location; quick: the location's own class + the universal class; classes: cursor-like, regex/wildcard patterns, scripts, field names and bucket paths, query strings, percentages/intervals/dates, enum and type names) for strings, every nasty number for numbers, bool flip, for arrays empty / first element duplicated / +40 copies / each element removed, for objects empty / each key dropped / each key renamed to 7 names; hand-written extras (duplicate terms in several scoring leaves, histogram bounds, pipeline windows, highlight, limits, fuzzy, boosts, sorts on every field kind); per index a cursor alphabet built from byte-level variants of a real score cursor and JSON-level variants of two real sort cursors, each presented on the score path and on two sort paths; all single-edit neighbours (delete / duplicate / substitute by each alphabet char) of the serialized base requests. Only requests that deserialize are run, deduplicated by the parsed request. A request is non-trivial when it deserialized and was run to an outcome.",
+    "rule" => "requests = 10 base requests covering every top-level request feature; for every value location of each base: null, every nasty string (thorough: every string at every string location; quick: the location's own class + the universal class; classes: cursor-like, regex/wildcard patterns, scripts, field names and bucket paths, query strings, percentages/intervals/dates, enum and type names) for strings, every nasty number for numbers, bool flip, for arrays empty / first element duplicated / +40 copies / each element removed, for objects empty / each key dropped / each key renamed to 7 names; UTF-8 byte-boundary alphabet (22 characters: per encoded length 1..4 a character whose last byte is minimal / middle / maximal, letter representatives, first and last code point of each length class) as plain words at every pattern / query-string location, as wildcard / regex patterns with such a literal prefix, as indexed tokens of document E in four differently analyzed fields, and in hand-written requests for every term-expansion site (prefix / wildcard / regex on default-, whitespace-, unicode-analyzed text and keyword fields; fuzzy with prefix_length 0,1,2; query_string forms; completion suggest with and without fuzzy); hand-written extras (duplicate terms in several scoring leaves, histogram bounds, pipeline windows, highlight, limits, fuzzy, boosts, sorts on every field kind); per index a cursor alphabet built from byte-level variants of a real score cursor and JSON-level variants of two real sort cursors, each presented on the score path and on two sort paths; all single-edit neighbours (delete / duplicate / substitute by each alphabet char) of the serialized base requests. Only requests that deserialize are run, deduplicated by the parsed request. A request is non-trivial when it deserialized and was run to an outcome.",
     "indexes" => worlds.iter().map(|w| w.describe()).collect::<Vec<_>>(),
     "base_requests" => n_bases,
     "structured_variants_generated" => n_structured,
     "extras" => n_extras,
+    "utf8_boundary_chars" => boundary_chars().iter().map(|c| format!("U+{:04X}", *c as u32)).collect::<Vec<_>>(),
+    "utf8_boundary_requests_generated" => n_boundary,
+    "utf8_boundary_requests_kept" => boundary.len(),
+    "utf8_boundary_requests_run_against" => if quick { "indexes 0 and 1" } else { "all indexes" },
     "core_kept" => core.len(),
     "structured_variants_kept_after_deserialize_and_dedupe" => structured.len(),
     "structured_variants_run_against" => if quick { "index 1 only" } else { "all indexes" },
